@@ -442,6 +442,9 @@ def check_filter(ctx, drv, case):
         hgxv.enc_list([te0[k][0] for k in order]),
         crit_wire(ncrit), crit_wire(ecrit), mode, "1" if keep else "0"])
     ans = drv.ask(line)
+    if ans == "rej":
+        ctx.disagree({**case, "line": line}, "the model's filter raises (absent node or key) while the implementation returned")
+        return
     try:
         a_nodes, a_edges, a_ws = ans.split(" ")
         mn = {l[0]: tuple(l[1:]) for l in hgxv.dec_lists(a_nodes)}
